@@ -691,6 +691,86 @@ impl Ctx {
         }
     }
 
+    /// Exhaustive enumeration of an indexed finite space, split over `shards` threads (index i goes to shard i % shards).
+    /// No shrinking: of the failures found, the one with the smallest index is reported (spaces are indexed shortest first).
+    pub fn enumerate_indexed<T, G, F>(&mut self, sub: &str, total: u64, shards: usize, gen: G, f: F)
+    where
+        T: Debug + Clone + Serialize + DeserializeOwned + Send,
+        G: Fn(u64) -> T + Sync,
+        F: Fn(&T) -> CaseResult + Sync,
+    {
+        if self.run_replays::<T, F>(sub, &f) {
+            return;
+        }
+        if self.should_skip() || only_skips(sub) {
+            return;
+        }
+        let known: Vec<String> = self.known.iter().filter(|k| k.status == "known").map(|k| k.signature.clone()).collect();
+        let shards = shards.max(1);
+        let stop = std::sync::atomic::AtomicBool::new(false);
+        let run_shard = |shard: usize| -> (SubStats, BTreeMap<String, u64>, Option<(u64, T, CaseFail)>) {
+            let mut stats = SubStats::default();
+            let mut hits: BTreeMap<String, u64> = BTreeMap::new();
+            let mut failure = None;
+            let mut i = shard as u64;
+            while i < total {
+                if stop.load(std::sync::atomic::Ordering::Relaxed) {
+                    break;
+                }
+                let case = gen(i);
+                case_begin();
+                let r = guarded(|| f(&case));
+                case_end();
+                match r {
+                    Ok(ok) => account(&mut stats, &case, &ok),
+                    Err(fail) => {
+                        stats.evaluations += 1;
+                        if fail.signature.contains("/harness-") {
+                            *stats.classes.entry("inconclusive-harness".to_string()).or_default() += 1;
+                            HARNESS_TROUBLE.lock().unwrap().push(format!("[{}] {}", fail.signature, fail.message));
+                        } else if known.iter().any(|k| *k == fail.signature) {
+                            *hits.entry(fail.signature.clone()).or_default() += 1;
+                        } else {
+                            failure = Some((i, case, fail));
+                            stop.store(true, std::sync::atomic::Ordering::Relaxed);
+                            break;
+                        }
+                    }
+                }
+                i += shards as u64;
+            }
+            (stats, hits, failure)
+        };
+        let outs: Vec<_> = std::thread::scope(|s| {
+            let hs: Vec<_> = (0..shards)
+                .map(|k| {
+                    let rs = &run_shard;
+                    std::thread::Builder::new().name(format!("shard-{k}")).stack_size(16 << 20).spawn_scoped(s, move || rs(k)).unwrap()
+                })
+                .collect();
+            hs.into_iter().map(|h| h.join().expect("shard thread")).collect()
+        });
+        let mut first: Option<(u64, T, CaseFail)> = None;
+        let mut complete = true;
+        for (stats, hits, failure) in outs {
+            let st = self.sub_mut(sub);
+            merge(st, stats);
+            for (k, v) in hits {
+                *self.known_hits.entry(k).or_default() += v;
+            }
+            if let Some(fl) = failure {
+                complete = false;
+                if first.as_ref().map(|x| fl.0 < x.0).unwrap_or(true) {
+                    first = Some(fl);
+                }
+            }
+        }
+        self.sub_mut(sub).exhaustive = complete;
+        if let Some((_, case, fail)) = first {
+            self.record_violation(sub, &case, fail);
+        }
+    }
+
     pub fn wall_s(&self) -> f64 {
         self.start.elapsed().as_secs_f64()
     }
